@@ -174,6 +174,38 @@ fn run(case: &Value) -> Value {
             let prefix: Vec<Value> = (0..frame.len()).map(|k| dec(&frame[..k])).collect();
             json!({"exact": dec(&frame), "with": with, "prefix": prefix})
         }
+        "decode_result" => {
+            let b = bytes_of(&case["bytes"]);
+            let mut buf = BytesMut::from(&b[..]);
+            match ldap3::verif_hooks::decode(&mut buf) {
+                Ok(None) => json!({"r": "none", "left": buf.len()}),
+                Ok(Some((id, tag, ctrls))) => {
+                    let optag = tag.clone().into_structure().id;
+                    let (r, exop, sasl) = ldap3::verif_hooks::result_ext(tag);
+                    json!({"r": "some", "id": id, "optag": optag, "left": buf.len(), "result": ldap_result_json(&r),
+                           "exop_name": exop.name.map(|s| s.into_bytes()), "exop_val": exop.val, "sasl": sasl,
+                           "ctrls": ctrls.iter().map(ctrl_json).collect::<Vec<_>>()})
+                }
+                Err(_) => json!({"r": "err", "left": buf.len()}),
+            }
+        }
+        "helper" => {
+            use ldap3::result::{CompareResult, ExopResult};
+            let rc = case["rc"].as_u64().unwrap() as u32;
+            let res = ldap3::LdapResult { rc, matched: String::new(), text: String::new(), refs: vec![], ctrls: vec![] };
+            let exop = ldap3::exop::Exop { name: None, val: None };
+            match case["fn"].as_str().unwrap() {
+                "LdapResult::success" => json!({"ok": res.success().is_ok()}),
+                "LdapResult::non_error" => json!({"ok": res.non_error().is_ok()}),
+                "SearchResult::success" => json!({"ok": ldap3::SearchResult(vec![], res).success().is_ok()}),
+                "SearchResult::non_error" => json!({"ok": ldap3::SearchResult(vec![], res).non_error().is_ok()}),
+                "CompareResult::equal" => match CompareResult(res).equal() { Ok(b) => json!({"ok": true, "val": b}), Err(_) => json!({"ok": false}) },
+                "CompareResult::non_error" => json!({"ok": CompareResult(res).non_error().is_ok()}),
+                "ExopResult::success" => json!({"ok": ExopResult(exop, res).success().is_ok()}),
+                "ExopResult::non_error" => json!({"ok": ExopResult(exop, res).non_error().is_ok()}),
+                _ => json!({"r": "unknown-fn"}),
+            }
+        }
         "decode_and_convert" => {
             let b = bytes_of(&case["bytes"]);
             let mut buf = BytesMut::from(&b[..]);
